@@ -72,7 +72,12 @@ func nIndex(s, t string) int {
 }
 func nReplace(s, old, nw string) string {
 	if old == "" {
-		return s
+		// the empty string occurs before every character and at the end (judged for ASCII s only)
+		out := nw
+		for i := 0; i < len(s); i++ {
+			out += s[i:i+1] + nw
+		}
+		return out
 	}
 	out := ""
 	for i := 0; i < len(s); {
@@ -95,6 +100,7 @@ func clampInt(i, lo, hi int) int {
 	}
 	return i
 }
+
 // nTrim strips Unicode White_Space (Go's unicode.IsSpace, the standard definition) from both ends,
 // rune by rune; invalid bytes are not white space.
 func nTrim(s string) string {
@@ -216,6 +222,57 @@ func judgeStrFn(c StrFnCase) *eng.Fail {
 			}
 		}
 		outcome(fmt.Sprint("search", want))
+	case "nested":
+		// builtins nested inside later arguments of other builtins, evaluated twice by ONE runner (argument
+		// lists of an outer and an inner call must not share storage)
+		first := ""
+		if len(t) > 0 {
+			first = t[:1]
+		}
+		forms := []struct {
+			src  string
+			want interface{}
+		}{
+			{"contains(s, lower(t))", nIndex(s, nCase(t, false)) >= 0},
+			{"startWith(s, left(s, 0)) && contains(s, lower(t))", nIndex(s, nCase(t, false)) >= 0},
+			{"find(s, upper(t))", nIndex(s, nCase(t, true))},
+			{"replace(s, lower(t), upper(t))", nil},
+			{"endWith(upper(s), upper(t))", nHasSuffix(nCase(s, true), nCase(t, true))},
+			{"startWith(lower(s), left(lower(t), len(t)))", nHasPrefix(nCase(s, false), nCase(t, false))},
+			{"join([s, lower(t), upper(s)], left(t, 0))", s + nCase(t, false) + nCase(s, true)},
+			{"contains(trim(s), trim(t))", nIndex(nTrim(s), nTrim(t)) >= 0},
+			{"left(s, len(left(t, 0)))", ""},
+			{"len(s) + len(upper(t))", nil},
+		}
+		_ = first
+		r := formula.NewRunner()
+		r.SetThis(data)
+		for round := 0; round < 2; round++ {
+			for _, fm := range forms {
+				if fm.want == nil || !isASCII(s) || !isASCII(t) {
+					continue
+				}
+				p, err := cachedParse(fm.src)
+				if err != nil {
+					return eng.F("C17/parse", "%s: %v", fm.src, err)
+				}
+				o := safeResolve(r, bg, p.Expression)
+				if o.panicked || o.err != nil {
+					return eng.F("C17/eval", "%s with s=%q t=%q: %v %s", fm.src, s, t, o.err, o.panicMsg)
+				}
+				got := o.val
+				if n, isInt := fm.want.(int); isInt {
+					if f, ok := got.(float64); !ok || f != float64(n) {
+						return fail(fm.src+fmt.Sprintf(" (evaluation round %d on one runner)", round+1), got, n)
+					}
+					continue
+				}
+				if got != fm.want {
+					return fail(fm.src+fmt.Sprintf(" (evaluation round %d on one runner)", round+1), got, fm.want)
+				}
+			}
+		}
+		outcome("nested")
 	case "leftright":
 		// in-range n
 		v, f := ev("[left(s,i), right(s,i), left(s,i) + right(s,len(s)-i) == s, startWith(s,left(s,i)), endWith(s,right(s,i)), len(s)]")
@@ -433,10 +490,13 @@ func runC17(w *eng.W) {
 		}
 		for _, t := range T {
 			emit(StrFnCase{Fn: "search", S: Bytes(s), T: Bytes(t)})
-			if t != "" {
+			if t != "" || isASCII(s) {
 				for _, u := range T {
 					emit(StrFnCase{Fn: "replace", S: Bytes(s), T: Bytes(t), U: Bytes(u)})
 				}
+			}
+			if len(s) <= 6 {
+				emit(StrFnCase{Fn: "nested", S: Bytes(s), T: Bytes(t)})
 			}
 		}
 		// also needles longer than two symbols taken from the string itself
